@@ -96,7 +96,9 @@ def _run_one(args) -> dict:
             prog = Program(tmp)
             mod.run(prog, rep, "quick")
         except AnalysisError as e:
-            return {"id": m.id, "status": "analysis-error", "why": str(e), "expect": m.expect}
+            # as in the driver: a violation established before the analysis stopped stands
+            if not any(o.verdict == "violation" for o in rep.obligations):
+                return {"id": m.id, "status": "analysis-error", "why": str(e), "expect": m.expect}
         except Exception as e:  # noqa: BLE001
             return {"id": m.id, "status": "analysis-error", "why": f"{type(e).__name__}: {e}", "expect": m.expect}
         from .report import load_known_findings
@@ -152,7 +154,8 @@ def _run_benign(args) -> dict:
             prog = Program(tmp)
             mod.run(prog, rep, "quick")
         except AnalysisError as e:
-            return {"id": name, "status": "mismatch", "expect": expect, "why": f"analysis error: {e}", "fired": []}
+            if not any(o.verdict == "violation" for o in rep.obligations):
+                return {"id": name, "status": "mismatch", "expect": expect, "why": f"analysis error: {e}", "fired": []}
         except Exception as e:  # noqa: BLE001
             return {"id": name, "status": "mismatch", "expect": expect, "why": f"{type(e).__name__}: {e}", "fired": []}
         from .report import load_known_findings
